@@ -318,14 +318,16 @@ Definition ostep (o : ost) (e : ev) : option ost :=
       (* a live holder must be found *)
       if has_name n (o_live o) then None else Some o
   | EWhere n (Some (a, c)) =>
-      (* only the live holder or a holder that is still stopping; never after its wait returned *)
+      (* only the live holder or a holder that is still stopping; never after its wait returned,
+         and never a cell whose status already reads Stopped (a wait() on it returns at once) *)
       if (mem_pair n a (o_live o) || mem_pair n a (o_stopping o)) && negb (mem_nat a (o_waited o))
+         && negb (match c with SStopped => true | _ => false end)
       then Some o else None
   | EWherePid a None =>
       (* a local actor that is registered and has not begun to stop must be found by pid *)
       if mem_nat a (o_pidlive o) then None else Some o
-  | EWherePid a (Some _) =>
-      if mem_nat a (o_waited o) then None else Some o
+  | EWherePid a (Some c) =>
+      if mem_nat a (o_waited o) || (match c with SStopped => true | _ => false end) then None else Some o
   end.
 
 Fixpoint check_from (o : ost) (h : list ev) : bool :=
